@@ -5,6 +5,7 @@ package props
 
 import (
 	"fmt"
+	"sort"
 
 	"verif/internal/harness"
 	. "verif/internal/luaref"
@@ -38,6 +39,15 @@ func runC01(r *harness.Run) {
 		"F-closure": genClosure(false),
 		"F-nest":    genNest(false),
 	}
+	// the call, index, metamethod, closure and loop families once more behind 300 constants (every
+	// later constant of the main function needs a register: K operands beyond 255)
+	korder := []string{}
+	for n, g := range map[string]Gen{"F-call": genCall(false), "F-callmeta": genMetaCall(false), "F-index": genMetaIndex(false), "F-chain": genMetaChain(false), "F-select": genSelectUnpack(false),
+		"F-genfor": genGenFor(false), "F-constobj": genConstObj(false), "F-fractkey": genFractKey(), "F-tcons": genTCons(false), "F-numfor": genNumFor(false), "F-closure": genClosure(false)} {
+		gens["K300/"+n] = mapGen(g, "K300/", constPressure(300))
+		korder = append(korder, "K300/"+n)
+	}
+	sort.Strings(korder)
 	order := []string{"F-constobj", "F-localscope", "F-fractkey", "F-closure", "F-nest", "F-assign", "F-tcons", "F-numfor", "F-genfor", "F-faultline", "F-goto", "F-cond", "F-ctrl", "F-expr"}
 	r.Rule = "every program of the families F-assign (all multiple assignments/local declarations over 8 target kinds x 11 source kinds with aliasing), " +
 		"F-expr (all operator trees over a typed leaf alphabet x destination contexts x surrounding code), F-cond (boolean skeletons in value and branch position), " +
@@ -49,7 +59,7 @@ func runC01(r *harness.Run) {
 		"text of run-time fault messages is not compared, only that a string prefixed chunk:line: with a line of the innermost executing statement is delivered",
 		"number->string conversions are compared only where %.14g and the shortest round-trip rendering agree",
 	}
-	pr.runGens(gens, order)
+	pr.runGens(gens, append(order, korder...))
 }
 
 // ---- common prelude ------------------------------------------------------------------------------
